@@ -31,7 +31,7 @@ func init() {
 
 // Call is one graph-construction call.
 type Call struct {
-	Op   string `json:"op"` // add | dep | retries
+	Op   string `json:"op"` // add | dep | depl (edges declared through Graph.Task(id) look-ups) | retries
 	T    int    `json:"t"`
 	Deps []int  `json:"deps,omitempty"`
 	R    int    `json:"r,omitempty"`
@@ -78,6 +78,19 @@ func BuildModel(c *DagCase) *GModel {
 		case "retries":
 			m.Exists[call.T] = true
 			m.Retries[call.T] = call.R
+		case "depl":
+			// g.TaskDependsOn(g.Task(id), g.Task(dep)...): looking up an unknown id is a definition error
+			ok := m.Exists[call.T]
+			for _, d := range call.Deps {
+				if d < 0 || d >= c.N || !m.Exists[d] {
+					ok = false
+				}
+			}
+			if !ok {
+				m.DefErr = true
+				continue
+			}
+			fallthrough
 		case "dep":
 			m.Exists[call.T] = true
 		DEPS:
@@ -457,6 +470,14 @@ func Execute(c *DagCase) *Result {
 		case "retries":
 			g.TaskRetries(tasks[call.T], call.R)
 			added[call.T] = true
+		case "depl":
+			var ds []*dag.Task
+			for _, d := range call.Deps {
+				if d >= 0 && d < c.N {
+					ds = append(ds, g.Task(taskID(d)))
+				}
+			}
+			g.TaskDependsOn(g.Task(taskID(call.T)), ds...)
 		case "dep":
 			var ds []*dag.Task
 			for _, d := range call.Deps {
